@@ -14,7 +14,7 @@ LEVEL = "exploration"
 RULE = (
     "Hypothesis generates 1..4 calibrated variables over the arguments of a logging probe model (plus optionally the "
     "detector's quantum efficiency), each a scalar '_' or a vector of 2..4 '_', linear or logarithmic, with a shared (lo, hi) "
-    "pair or per-component pairs (positive when logarithmic). Part 'problem': decision vectors drawn inside the box plus "
+    "pair or per-component pairs (positive when logarithmic, lower ends from 1e-20 to 10). Part 'problem': decision vectors drawn inside the box plus "
     "its corners; get_bounds and convert_to_parameters (1-D and 2-D) are compared with a reference written in the harness, "
     "and evaluating fitness(dv) must make the probe receive exactly the slice of each variable. Part 'run': real calibration "
     "runs (sade / sga / nlopt, 1..2 islands, seeds): every logged evaluation and every reported champion / best decision must "
@@ -38,7 +38,7 @@ def variables(draw, max_vars=4, allow_qe=True):
 
         def pair():
             if log:
-                lo = draw(st.sampled_from([1e-6, 1e-3, 0.1, 1.0, 10.0]))
+                lo = draw(st.sampled_from([1e-20, 1e-12, 1e-6, 1e-3, 0.1, 1.0, 10.0]))  # (capture cross-sections are of the order of 1e-20 .. 1e-15)
                 return [lo, lo * draw(st.sampled_from([10.0, 100.0, 1e4]))]
             lo = draw(st.sampled_from([-100.0, -1.0, 0.0, 0.5, 10.0]))
             return [lo, lo + draw(st.sampled_from([0.5, 1.0, 10.0, 1000.0]))]
